@@ -111,3 +111,51 @@ pub fn result_name_vec(n: usize) -> (r: Vec<Ident>)
     }
     v
 }
+
+// ---------------------------------------------------------------- C04: the step destructuring (extract_results_tuple with a step)
+
+/// the names of the branches still active in `step`, in branch order
+pub open spec fn filter_active<T>(vars: Seq<T>, depths: Seq<usize>, step: int, upto: int) -> Seq<T>
+    decreases upto
+{
+    if upto <= 0 { Seq::<T>::empty() }
+    else {
+        filter_active(vars, depths, step, upto - 1)
+            + if depths[upto - 1] > step { seq![vars[upto - 1]] } else { Seq::<T>::empty() }
+    }
+}
+
+/// `v` holds references to exactly the elements of `s`, in order
+pub open spec fn refs_of<T>(v: Seq<&T>, s: Seq<T>) -> bool {
+    v.len() == s.len() && forall|j: int| 0 <= j < v.len() ==> *(#[trigger] v[j]) == s[j]
+}
+
+pub proof fn lemma_refs_toks<T: ToTokens>(v: Seq<&T>, s: Seq<T>, sep: char)
+    requires refs_of(v, s),
+    ensures seq_toks_sep(v, sep) == seq_toks_sep(s, sep), all_tokenizable(s) ==> all_tokenizable(v),
+    decreases v.len(),
+{
+    if v.len() > 1 {
+        assert(refs_of(v.drop_last(), s.drop_last()));
+        lemma_refs_toks(v.drop_last(), s.drop_last(), sep);
+    }
+    if all_tokenizable(s) {
+        assert forall|j: int| 0 <= j < v.len() implies (#[trigger] v[j]).tokenizable() by { assert(s[j].tokenizable()); }
+    }
+}
+
+pub proof fn lemma_filter_tokenizable<T: ToTokens>(vars: Seq<T>, depths: Seq<usize>, step: int, upto: int)
+    requires all_tokenizable(vars), 0 <= upto <= vars.len(),
+    ensures all_tokenizable(filter_active(vars, depths, step, upto)),
+    decreases upto,
+{
+    if upto > 0 { lemma_filter_tokenizable(vars, depths, step, upto - 1); }
+}
+
+/// what `extract_results_tuple(rs, names, handler, Some(step))` prints: only the active branches are destructured
+pub open spec fn extract_step(rs: Seq<Tok>, active_names: Seq<Tok>, all_names: Seq<Tok>, handler: Option<&Ident>) -> Seq<Tok> {
+    match handler {
+        None => let_tuple(active_names, rs),
+        Some(h) => group(Delim::Brace, let_tuple(active_names, rs) + h.toks() + group(Delim::Paren, all_names)),
+    }
+}
